@@ -53,6 +53,7 @@ def plan(rng, tier):
         pre = int(cfg["dom"]["nk"] * rng.choice([0.5, 0.8, 1.0]))
     dom = Domain(cfg["dom"])
     g = common.Gen(rng, dom, cfg["kind"])
+    g.p_bad = 0.05
     hist = []
     if pre:
         hist.extend(g.fill(pre))
